@@ -27,7 +27,7 @@ COMPONENTS = {
     'stub': ['user objective', 'PRNG seam (reports the element random.choice picked)', 'joblib', 'time.time', 'uuid1'],
 }
 PROBES_EXPECTED = ['eq_calls', 'identical', 'all_differ', 'share_some_coordinates', 'share_last_coordinate_only_differ_elsewhere',
-                   'generate_calls', 'mixed_design_classes', 'scripted_generate', 'rejected_duplicates', 'removals_checked', 'identical_vectors_in_pool', 'derived_pairs', 'dedup_checked']
+                   'generate_calls', 'archive_remove_derived', 'mixed_design_classes', 'scripted_generate', 'rejected_duplicates', 'removals_checked', 'identical_vectors_in_pool', 'derived_pairs', 'dedup_checked']
 
 
 def hooks(ctx, w, D):
@@ -77,6 +77,30 @@ def hooks(ctx, w, D):
         moved by 1e-12, 1e-9, 1e-3 relative or by half the range - so that every coordinate position and every magnitude
         class is judged, whatever SBX / PM happened to produce"""
         eq_ = monitors.ORIG['eq']
+        # Archive.remove identifies the member to remove by design equality: a distinct design with the same objective values
+        # removes nothing, an equal design (a fresh copy without results) removes exactly that member
+        evaluated = [q for q in parents if getattr(q, 'costs_signed', None) and len(q.vector) > 0]
+        if evaluated and key <= 6:
+            from artap.archive import Archive
+            from artap.operators import ParetoDominance
+            src = evaluated[D.dec('work', ('ar', key), len(evaluated))]
+            arch = Archive(dominance=ParetoDominance())
+            arch.add(src)
+            other = src.__class__([float(x) + 0.37 for x in src.vector])
+            other.costs = list(src.costs)
+            other.costs_signed = list(src.costs_signed)
+            ctx.probe('archive_remove_derived')
+            r1 = arch.remove(other)
+            if r1 or len(arch) != 1:
+                ctx.violation('removed_distinct', 'Archive.remove', 'remove(%r) with a distinct design that merely has the member\'s '
+                              'objective values %r returned %r and left %d members' % (list(other.vector), list(src.costs_signed), r1, len(arch)))
+                return
+            twin = src.__class__(list(src.vector))
+            r2 = arch.remove(twin)
+            if not r2 or len(arch) != 0:
+                ctx.violation('removed_distinct', 'Archive.remove', 'remove() with an equal design (fresh copy of %r, no results yet) '
+                              'returned %r and left %d members' % (list(src.vector), r2, len(arch)))
+                return
         for t in range(min(6, len(parents))):
             src = parents[D.dec('work', ('de', key, t, 0), len(parents))]
             n = len(src.vector)
